@@ -86,7 +86,9 @@ def minBE (v : Nat) : Bytes := Bytes.encodeBE (byteLen v) v
 
 inductive GoCurve where
   | p256 | p384 | p521 | secp256k1
-  | other                      -- any other elliptic.Curve (P-224, custom)
+  | other                      -- any other elliptic.Curve VALUE: P-224, a custom type, but also elliptic.P256().Params(),
+                               -- a *CurveParams copy or a renamed curve — goat compares curve objects by identity,
+                               -- never by the name the value reports
 deriving DecidableEq, Repr, Inhabited
 
 /-- the name goat gives the curve (jwa constants); `other` has none -/
